@@ -201,12 +201,17 @@ def _write_prop(pg, p):
     _entity(ds, p["name"], p["id"])
     for a in ("definition", "unit"):
         if p.get(a) is not None:
-            ds.attrs[a] = p[a]
+            if p.get("attr_bytes") and p[a]:
+                ds.attrs[a] = np.bytes_(p[a].encode("utf-8"))
+            else:
+                ds.attrs[a] = p[a]
 
 
 def _write_section(parent, s):
     g = mkgrp(parent, s["name"])
     _entity(g, s["name"], s["id"], s["type"])
+    if s.get("definition") is not None:
+        g.attrs["definition"] = s["definition"]
     if s["props"]:
         pg = mkgrp(g, "properties")
         for p in s["props"]:
@@ -220,7 +225,7 @@ def _write_section(parent, s):
 def _write_array(das, a):
     g = mkgrp(das, a["name"])
     _entity(g, a["name"], a["id"], a["type"])
-    for k in ("unit", "label"):
+    for k in ("unit", "label", "definition"):
         if a.get(k) is not None:
             g.attrs[k] = a[k]
     g.create_dataset("data", data=np.array([float(Fraction(x)) for x in a["data"]], dtype=np.float64),
@@ -276,6 +281,8 @@ def build_file(path, spec):
         for b in spec["blocks"]:
             g = mkgrp(data, b["name"])
             _entity(g, b["name"], b["id"], b["type"])
+            if b.get("definition") is not None:
+                g.attrs["definition"] = b["definition"]
             if b["arrays"]:
                 das = mkgrp(g, "data_arrays")
                 for a in b["arrays"]:
@@ -695,9 +702,33 @@ def compare_stale(model, impl):
 # ---------------------------------------------------------------------------------------
 # generators
 
-NAMECH = list("abcXYZ019") + ["_", "-", ".", " ", "~", "A", "z", "é", "µ", "(", "+"]
+NAMECH = list("abcXYZ019") + ["_", "-", ".", " ", "~", "A", "z", "é", "µ", "(", "+", "μ", "e\u0301", "\u00a0", "  ", "mu"]
 UNITS = [None, None, "mV", "s", "Hz", "", "kg/m^3"]
 DEFS = [None, None, "a definition", "", "δ"]
+# Texts as files of other / older writers hold them, which nixio's own setters would rewrite or refuse (Property.unit,
+# DataArray.unit and the dimension units go through units.sanitizer / the SI test; names, types, definitions and
+# labels are stored as given): blanks inside and around, micro sign / Greek mu / the letters "mu", composed and
+# decomposed accents, no-break space, tabs and line breaks, letter case, non-SI words, long texts.  The upgrade has to
+# carry whatever the old file holds ("reads as before").
+RAW_UNITS = ["\u00b5V", "\u03bcm", "spikes / s", "deg C", "mumol/l", " mV", "mV ", "m V", "mu", "\u00b5", "\u03a9",
+             "\u00b0C", "a.u.", "%", "1 / s", "mV/\u221aHz", "MV", "Mv", "\tms", "ms\n", "k\u03a9\u00b7cm", "mV^2 / Hz",
+             "muS/cm", "\u00b5mol / l", "arb. unit", "\u00c5", "A\u030a", "m\u00a0V", "pixel", "mus", "\u03bcs ",
+             "MU" * 150]
+RAW_TEXTS = [" lead", "trail ", "two  blanks", "line\nbreak", "tab\there", "micro \u00b5 and mu \u03bc", "mumble",
+             "\u65e5\u672c\u8a9e", "\u1e9e", "cafe\u0301", "caf\u00e9", "\u00a0nbsp\u00a0", "None", "0", "False", " ", "  ",
+             "\n", "a/b", "{x}", "%s %d", "\\n", "'quoted\"", "\u2603", "long text, " * 180]
+
+
+def _unit_text(rng, plain=None):
+    if rng.random() < 0.6:
+        return rng.choice(plain if plain is not None else UNITS)
+    return rng.choice(RAW_UNITS)
+
+
+def _free_text(rng, plain):
+    if rng.random() < 0.6:
+        return rng.choice(plain)
+    return rng.choice(RAW_TEXTS)
 
 
 def _uid(rng):
@@ -710,7 +741,10 @@ def _name(rng, used, base=None):
             n = base + rng.choice(NAMECH)
         else:
             n = "".join(rng.choice(NAMECH) for _ in range(rng.choice([1, 1, 2, 3, 5])))
-        n = n.strip() or "n"
+        if not n.strip():
+            n = "n"
+        elif rng.random() < 0.7:    # most names without blanks around them
+            n = n.strip()
         if n not in used and n not in (".", "..") and not n.startswith("."):
             used.add(n)
             return n
@@ -736,7 +770,7 @@ I_SPECIAL = {"int64": [2 ** 63 - 1, -2 ** 63, 2 ** 53 + 1], "int32": [2 ** 31 - 
 
 def _gen_value(rng, dtype):
     if dtype == "str":
-        return ["s", rng.choice(["", "a", "bb", "x y", "ü", "0", "long text " * 3, " ", "nan"])]
+        return ["s", _free_text(rng, ["", "a", "bb", "x y", "ü", "0", "long text " * 3, " ", "nan"])]
     if dtype == "bool":
         return ["b", rng.random() < 0.5]
     if dtype in I_SPECIAL:
@@ -751,7 +785,7 @@ def _gen_value(rng, dtype):
 UNC_MODES = ["zero", "zero", "same", "many", "negzero", "close_rel", "close_rel", "close_abs", "close_ulp", "nan",
              "inf", "one_nonzero", "last_differs"]
 TEXT_MODES = ["none"] * 8 + ["same", "first", "last", "random", "falsy_looking"]
-TEXTS = ["r", "ref", "ä", "0", " ", "False", "None", "nan", "[]", "a/b.c", "x" * 40]
+TEXTS = ["r", "ref", "ä", "0", " ", "False", "None", "nan", "[]", "a/b.c", "x" * 40] + RAW_TEXTS[:12] + RAW_UNITS[:6]
 
 
 def _double(rng):
@@ -851,7 +885,9 @@ def _gen_prop(rng, name, kind, dtype=None, n=None, umode=None, tmodes=None):
     dtype = dtype or rng.choice(PROP_DTYPES)
     n = rng.choice([0, 1, 1, 2, 2, 3, 5, 12]) if n is None else n
     p = {"name": name, "kind": kind, "dtype": dtype, "id": _uid(rng),
-         "definition": rng.choice(DEFS), "unit": rng.choice(UNITS)}
+         "definition": _free_text(rng, DEFS), "unit": _unit_text(rng)}
+    if rng.random() < 0.15:
+        p["attr_bytes"] = True      # definition / unit stored as fixed-length byte strings (h5py: np.bytes_)
     if kind == "old":
         _, us = gen_uncs(rng, n, umode)
         cols = [gen_texts(rng, n, (tmodes or {}).get(s)) for s in SUFFIXES[1:]]
@@ -898,7 +934,8 @@ def grid_specs(lib):
 
 def _gen_section(rng, used, depth, budget, oldness, collide):
     name = _name(rng, used)
-    s = {"name": name, "type": rng.choice(["t", "meta", "a.b"]), "id": _uid(rng), "props": [], "sections": []}
+    s = {"name": name, "type": _free_text(rng, ["t", "meta", "a.b"]), "id": _uid(rng), "props": [], "sections": [],
+         "definition": _free_text(rng, DEFS)}
     pused = set()
     npro = rng.choice([0, 1, 2, 3, 3, 4, 5, 6, 10]) if budget[0] > 0 else 0
     last = None
@@ -928,26 +965,28 @@ def _gen_section(rng, used, depth, budget, oldness, collide):
 
 def _gen_array(rng, used, aliasness):
     name = _name(rng, used)
-    a = {"name": name, "type": "t", "id": _uid(rng), "unit": rng.choice(UNITS), "label": rng.choice([None, "lab", "λ"]),
+    a = {"name": name, "type": _free_text(rng, ["t", "nix.sampled"]), "id": _uid(rng), "unit": _unit_text(rng),
+         "label": _free_text(rng, [None, "lab", "λ"]), "definition": _free_text(rng, DEFS),
          "data": sorted(_fs(_dyadic(rng)) for _ in range(rng.choice([0, 1, 3, 6]))), "dims": []}
     a["data"] = [_fs(x) for x in sorted(Fraction(x) for x in a["data"])]
     for _ in range(rng.choice([0, 1, 1, 2, 3])):
         r = rng.random()
         if r < aliasness:
-            a["dims"].append({"kind": "alias", "unit": rng.choice([None, "own"]), "label": rng.choice([None, None, "own l"])})
+            a["dims"].append({"kind": "alias", "unit": _unit_text(rng, [None, "own"]),
+                              "label": _free_text(rng, [None, None, "own l"])})
         elif r < aliasness + 0.15:
             a["dims"].append({"kind": "range", "ticks": [_fs(x) for x in sorted(_dyadic(rng) for _ in range(3))],
-                              "unit": rng.choice(UNITS[:4]), "label": rng.choice([None, "l"])})
+                              "unit": _unit_text(rng, UNITS[:4]), "label": _free_text(rng, [None, "l"])})
         elif r < aliasness + 0.25:
             a["dims"].append({"kind": rng.choice(["link", "link", "both"]), "link_id": _uid(rng), "unit": None,
                               "label": None})
         elif r < aliasness + 0.3:
-            a["dims"].append({"kind": "bare", "unit": rng.choice([None, "u"]), "label": rng.choice([None, "l"])})
+            a["dims"].append({"kind": "bare", "unit": _unit_text(rng, [None, "u"]), "label": _free_text(rng, [None, "l"])})
         elif r < aliasness + 0.5:
             a["dims"].append({"kind": "sampled", "interval": _fs(Fraction(rng.randint(1, 9), 4)),
-                              "unit": rng.choice(UNITS[:4]), "label": rng.choice([None, "t"])})
+                              "unit": _unit_text(rng, UNITS[:4]), "label": _free_text(rng, [None, "t"])})
         else:
-            a["dims"].append({"kind": "set", "labels": rng.choice([[], ["a", "b"]])})
+            a["dims"].append({"kind": "set", "labels": rng.choice([[], ["a", "b"], [x for x in rng.sample(RAW_TEXTS, 3)]])})
     return a
 
 
@@ -980,7 +1019,8 @@ def gen_spec(rng, lib, size="small", collide=False, shape=None):
         spec["sections"].append(_gen_section(rng, sused, 1, budget, oldness, collide))
     aliasness = rng.choice([0.0, 0.4, 0.4, 0.7])
     for _ in range(rng.choice([0, 1, 1, 2])):
-        b = {"name": _name(rng, bused), "type": "t", "id": _uid(rng), "arrays": []}
+        b = {"name": _name(rng, bused), "type": _free_text(rng, ["t", "session"]), "id": _uid(rng), "arrays": [],
+             "definition": _free_text(rng, DEFS)}
         aused = set()
         for _ in range(rng.choice([0, 1, 2, 3]) if size != "tiny" else rng.choice([0, 1])):
             b["arrays"].append(_gen_array(rng, aused, aliasness))
@@ -1366,7 +1406,8 @@ def expected_content(spec):
             vals = [["f", _ctok(v[1])] if v[0] == "f" else v for v in vals]
             props[p["name"]] = {"values": vals, "dtype": p["dtype"], "unit": p.get("unit") or None,
                                 "definition": p.get("definition") or None, "extras": extras}
-        secs[here] = {"id": s["id"], "type": s["type"], "props": props, "children": [c["name"] for c in s["sections"]]}
+        secs[here] = {"id": s["id"], "type": s["type"], "props": props, "children": [c["name"] for c in s["sections"]],
+                      "definition": s.get("definition") or None}
         for c in s["sections"]:
             rec(c, here)
     for s in spec["sections"]:
@@ -1391,8 +1432,10 @@ def expected_content(spec):
                 else:
                     dims.append({"type": "set", "labels": list(d.get("labels") or [])})
             arrs.append({"name": a["name"], "id": a["id"], "type": a["type"], "data": list(a["data"]),
-                         "unit": a.get("unit"), "label": a.get("label"), "dims": dims})
-        blocks.append({"name": b["name"], "id": b["id"], "type": b["type"], "arrays": arrs})
+                         "unit": a.get("unit"), "label": a.get("label"), "dims": dims,
+                         "definition": a.get("definition") or None})
+        blocks.append({"name": b["name"], "id": b["id"], "type": b["type"], "arrays": arrs,
+                       "definition": b.get("definition") or None})
     return {"sections": secs, "top": [s["name"] for s in spec["sections"]], "blocks": blocks}
 
 
@@ -1413,7 +1456,8 @@ def api_walk(path, mode, extras=True):
                                  "uncertainty": ((None if q.uncertainty is None else _fr(q.uncertainty))
                                                  if extras else None),
                                  "dtype": _dtag(np.dtype(q.data_type)) if not isinstance(q.data_type, list) else "?"}
-            secs[here] = {"id": s.id, "type": s.type, "props": props, "children": [c.name for c in s.sections]}
+            secs[here] = {"id": s.id, "type": s.type, "props": props, "children": [c.name for c in s.sections],
+                          "definition": s.definition or None}
             for c in s.sections:
                 rec(c, here)
         for s in f.sections:
@@ -1433,8 +1477,9 @@ def api_walk(path, mode, extras=True):
                     else:
                         dims.append({"type": "set", "labels": list(d.labels)})
                 arrs.append({"name": a.name, "id": a.id, "type": a.type, "data": [_fr(x) for x in a[:]] if len(a) else [],
-                             "unit": a.unit, "label": a.label, "dims": dims})
-            blocks.append({"name": b.name, "id": b.id, "type": b.type, "arrays": arrs})
+                             "unit": a.unit, "label": a.label, "dims": dims, "definition": a.definition or None})
+            blocks.append({"name": b.name, "id": b.id, "type": b.type, "arrays": arrs,
+                           "definition": b.definition or None})
         return {"sections": secs, "top": [s.name for s in f.sections], "blocks": blocks,
                 "version": [int(v) for v in f.version]}
     finally:
@@ -1455,7 +1500,7 @@ def content_diff(exp, got, after):
         return "sections %s != %s" % (sorted(got["sections"]), sorted(exp["sections"]))
     for sp, es in exp["sections"].items():
         gs = got["sections"][sp]
-        for k in ("id", "type", "children"):
+        for k in ("id", "type", "children", "definition"):
             if es[k] != gs[k]:
                 return "section %s: %s reads %r, expected %r" % (sp, k, gs[k], es[k])
         allowed = set(es["props"])
